@@ -116,7 +116,7 @@ def validQos (q : Nat) : Bool := q == qosAtMostOnce || q == qosAtLeastOnce || q 
 def validTopic (t : Bytes) : Bool := t.length > 0 && !t.contains 0x23 && !t.contains 0x2b
 
 /-- `SupportedVersions[v]` -/
-def versionName (v : Nat) : Option Bytes := (supportedVersions.lookup v).map (fun s => s.toUTF8.toList)
+def versionName (v : Nat) : Option Bytes := supportedVersions.lookup v
 
 /-- `readLPBytes`: the bytes and the count consumed -/
 def readLPBytes (buf : Bytes) : Outcome (Bytes × Nat) :=
